@@ -20,7 +20,7 @@ RULE = ("pairs (start, end = start * delta) with relative rotation angle log-uni
         "the two atan2 angles; out-of-range s raises (3-D matrix and quaternion routes); vector s = map over scalars; all "
         "routes agree. Non-trivial: relative angle < 1e-6 or > pi/2, or negative quaternion dot product, or s within 1e-9 of "
         "an end, or vector s.")
-RULE = RULE + probes.RULE_TEXT + (probes.AUG_TEXT if PROPERTY_ID in probes.AUG_PROPS else "")
+RULE = RULE + probes.RULE_TEXT + (probes.AUG_TEXT if PROPERTY_ID in probes.AUG_PROPS else "") + probes.VARIANT_TEXT
 ASSUMPTIONS = ["tolerance 1e-6 (relative to max(1,|t|) for translations), validity 1e-9",
                "antipodal quaternion pairs (|dot| > 0.999 with the long arc) are outside the domain and skipped (counted under label antipodal_skipped)",
                "2-D routes are not required to reject s outside [0,1]"]
@@ -93,7 +93,7 @@ def _intdtype(case):
 
 
 def check_case(case):
-    if case.get("kind") in ("hist", "aug"):
+    if case.get("kind") in ("hist", "aug", "variant"):
         return probes.run(case, PROPERTY_ID)
     return {"interp3": _interp3, "interp2": _interp2, "intdtype": _intdtype}[case["kind"]](case)
 
@@ -296,7 +296,7 @@ def _interp2(case):
 
 
 def classify(case):
-    if case.get("kind") in ("hist", "aug"):
+    if case.get("kind") in ("hist", "aug", "variant"):
         return probes.classify(case)
     k = case["kind"]
     if k == "intdtype":
